@@ -82,7 +82,8 @@ def _check_md5(path, checksum):
 
 def _check_md5_of_url(output_path, url):
     try:
-        checksum = download_text_file(url + '.md5').split(' ')[0]
+        # NOTE: `<md5>  <name>\n` as written by md5sum, or just `<md5>\n`.
+        checksum = download_text_file(url + '.md5').split()[0]
     except Exception:
         checksum = None
     finally:
